@@ -33,6 +33,10 @@ fp("C04", "skip only after a successful attempt for the present fingerprint: fai
 fp("C05", "idempotence and re-execution after every file operation, missing generates, failing status, --force; excluded files must not trigger.")
 fp("C12", "--dry, --status, --list-all (+--json), --summary: nothing runs, directory snapshot byte- and mtime-identical.")
 
+CASES_NOTE = "Trusted: TLC's evaluation of the specification operators; the bounded universe stated in the evidence file; the public Executor API as observation point."
+checks["C15"] = dict(level="model_checking", text="Resolve.tla defines Resolve(table, request) (exact name, first wildcard pattern in table order with only '*' special, unique alias, 203/200, suggestion for ordinary names). TLC enumerates every table of the bounded universe as initial states and emits the expected answer for every request; each (table, request) is asked of the real Executor (GetTask, MATCH validated by substitution, every 50th also run). Exhaustive within the universe.",
+   note=CASES_NOTE, ref="DESIGN.md 4.3, 5 (C15)", tech="TLA+ functional specification enumerated by TLC (one implementation test per TLC state) against Executor.GetTask/Run", engine="load")
+
 ALL = ["C%02d" % i for i in range(1, 21)]
 pending = {p: "check not built yet in this round (planned, see DESIGN.md section 5)" for p in ALL if p not in checks}
 
@@ -48,6 +52,8 @@ m = {
    "kind_free_text": "TLA+ executor model + property monitor; TLC model checking, trace validation, schedule-controlled replay into the real Executor"},
   {"name": "fp", "path": "specs/fp + harness/fpfam", "serves_properties": ["C04","C05","C12"],
    "kind_free_text": "TLA+ model of the up-to-date state machine + monitor; TLC model checking, history replay against the task CLI, TLC evaluation of observed histories"},
+  {"name": "load", "path": "specs/load + harness/loadfam", "serves_properties": ["C15"],
+   "kind_free_text": "TLA+ functional specifications (cases models) enumerated by TLC, compared with the real loader/resolver"},
  ],
  "checks": [], "not_applicable": [], "notes": "Every check: bash /verif/run.sh <id> <quick|thorough>; replay: bash /verif/run.sh <id> --replay <file>."
 }
